@@ -154,6 +154,9 @@ func (action actionCommit) handleSingleBatch(c *twoPhaseCommitter, bo *retry.Bac
 				// it means the transaction's commit state is unknown.
 				// We should return the error `ErrResultUndetermined` to the caller
 				// to do the further handling (.i.e disconnect the connection).
+				// Record it like an RPC error on the primary, so that the transaction is not rolled back by the
+				// clean-up of the failed commit: the commit may have taken effect.
+				c.setUndeterminedErr(errors.New(regionErr.String()))
 				return errors.WithStack(tikverr.ErrResultUndetermined)
 			}
 
